@@ -104,19 +104,58 @@ def instantiate(ctx, raw, comp, tag, INST, log):
                 continue
             if len(loops) != 1:
                 raise ExtractError('%s: expected exactly one loop, found %d' % (name, len(loops)))
-            args = '(const void**)&c, a, b' if sname == 'linear_search' else '(const void**)&a, (const void**)&c, &count, b'
+            # hook arguments by ROLE (declaration order and declared type), not by name: (k, lo, hi, comp) are the parameters in order,
+            # the cursor is the one local of the iterator type, the window length the one integer local the loop modifies
+            params, locs = fn_vars(docs, sname, 'operator()' if fn == 'call' else fn)
+            if len(params) < 3:
+                raise ExtractError('%s: expected the parameters (key, begin, end, comp)' % name)
+            lo, hi = params[1][0], params[2][0]
+            mods = loop_mod_inst(docs, sname, 'operator()' if fn == 'call' else fn)
+            iters = [n_ for n_, t_ in locs if t_.replace(' ', '') == INST['clang_iter'].replace(' ', '')]
+            ints = [n_ for n_, t_ in locs if n_ in mods and re.match(r'^(long|int|std::ptrdiff_t|ptrdiff_t|long long)$', t_.strip())]
+            if len(iters) != 1 or (sname == 'binary_search' and len(ints) != 1):
+                raise ExtractError('%s: cannot identify the cursor / window-length locals (iterator locals %s, integer locals modified by the loop %s)' % (name, iters, ints))
+            args = ('(const void**)&%s, %s, %s' % (iters[0], lo, hi)) if sname == 'linear_search' else \
+                   ('(const void**)&%s, (const void**)&%s, &%s, %s' % (lo, iters[0], ints[0], hi))
+            log['hook arguments of %s (by role)' % name] = args
             hk.append(dict(func=r'const %s\*\s+%s\s*\([^)]*\)\s*\{' % (INST['Key'], name), name=name, k=0, args=args))
-    # loop-modified sets from clang (on the member templates' instantiations)
-    for sname, mod_expected in (('linear_search', ['c']), ('binary_search', ['a', 'c', 'count'])):
+    # loop-modified sets from clang (on the member templates' instantiations): everything the loop modifies must be havocked by its hook
+    for sname in ('linear_search', 'binary_search'):
         for fn in ('lower_bound', 'upper_bound', 'operator()'):
             if sname == 'linear_search' and fn == 'operator()':
                 continue
             mods = loop_mod_inst(docs, sname, fn)
             log['loop %s::%s modified set (clang)' % (sname, fn)] = mods
-            if not set(mods) <= set(mod_expected):
-                raise ExtractError('loop of %s::%s modifies %s, hook havocs %s' % (sname, fn, mods, mod_expected))
+            h_ = [h for h in hk if h['name'] == '%s__%s' % (sname, FNAMES[fn])][0]
+            havocked = set(re.findall(r'&(\w+)', h_['args']))
+            if not set(mods) <= havocked:
+                raise ExtractError('loop of %s::%s modifies %s, hook havocs %s' % (sname, fn, mods, sorted(havocked)))
     text2 = rw.r9_hooks(text2, hk, log)
     ctx.write('extracted_%s.hpp' % tag, text2)
+
+
+def fn_vars(docs, sname, fname):
+    """([(param, type)], [(local, type)]) of the concrete instantiation of member template sname::fname, in declaration order"""
+    found = []
+
+    def visit(n, parents):
+        if n.get('kind') == 'CXXMethodDecl' and n.get('name') == fname and any(p.get('name') == sname for p in parents) and \
+                'Iter' not in n.get('type', {}).get('qualType', '') and any(c.get('kind') == 'CompoundStmt' for c in n.get('inner', []) or []):
+            found.append(n)
+    for d in docs:
+        rw.walk(d, visit)
+    if not found:
+        raise ExtractError('clang AST: no instantiation of %s::%s' % (sname, fname))
+    params, locs = [], []
+
+    def v(n, parents):
+        ty = n.get('type', {}).get('desugaredQualType', n.get('type', {}).get('qualType', ''))
+        if n.get('kind') == 'ParmVarDecl' and n.get('name'):
+            params.append((n['name'], ty))
+        elif n.get('kind') == 'VarDecl' and n.get('name'):
+            locs.append((n['name'], ty))
+    rw.walk(found[0], v)
+    return params, locs
 
 
 def loop_mod_inst(docs, sname, fname):
